@@ -48,6 +48,10 @@ TRUSTED = [
     "(+ common_parse/{spec,show}.ml, zarith conversions)",
     "translators/tables.py gen_error_tables: regex reading of enum ErrorKind, Error::stream/use_stderr/exit_code, "
     "USAGE_CODE/SUCCESS_CODE (fails loudly on an unknown shape)",
+    "translators/builder_tables.py gen_settings_tables: regex reading of enum AppSettings / AppFlags, the four "
+    "setting helpers, every bool setter, Command::is_set, _propagate_subcommand, the settings block of _build_self, the "
+    "tail of _check_help_and_version, and of the two spec readers of this framework (ocaml/common_parse/spec.ml "
+    "apply_setting, harness/src/modes/parse.rs); exits non-zero naming the construct on an unknown shape",
     "correspondence: vp/props/c10.py generators and fault annotations, harness/src/modes/{parse,c10}.rs, comparison of "
     "the projection (ok | kind class, stream, exit code)",
     "strsim::jaro is not modelled: Errors/Suggest.v is parametric in the similarity; the dym/flag streams feed the model "
@@ -69,7 +73,9 @@ TECHNIQUE = ("Coq proof (exit contract over the variant table regenerated from t
              "theorems for every similarity function; fourth pass: no-spurious-rejection as an independent theorem -- "
              "declarative rules on the denotation of a rendered invocation, success of the fold of react by an invariant "
              "(ParseProofs/NoSpurious*.v), composed with C02's un-parser theorem, C06's defaults frame and C03's validator "
-             "completeness) + extracted-model/implementation correspondence + python fault oracle")
+             "completeness; round 5: AppSettings tables regenerated from the source and from the two spec readers, the "
+             "model's propagation / build functions proved equal to the interpretation of those tables) "
+             "+ extracted-model/implementation correspondence + python fault oracle")
 LEVEL_TEXT = ("Machine-checked theorems (Coq 8.16, closed under the global context): the kind -> stream -> exit-code "
               "table of the model equals the table regenerated from error/kind.rs, error/mod.rs and util/mod.rs on every "
               "run and satisfies the exit contract for all variants; verify_num_args rejects exactly the counts outside "
@@ -117,7 +123,23 @@ LEVEL_TEXT = ("Machine-checked theorems (Coq 8.16, closed under the global conte
               "(C10_relations_read, C10_reports_determine, C10_relations_rule_decide/_refute).  Non-vacuity "
               "(`prog --req A -n 300 -vv --mu a,b c -x F run --key=K`) and one necessity witness per rule (the named rule "
               "fails, the others hold, rejected with the kind that names it: C10_rule_*_necessary); the nine lines are corpus "
-              "cases, so the crate answers as the theorems state on every run.  The model is tied to "
+              "cases, so the crate answers as the theorems state on every run.  Round 5 (tie by translation; which settings are "
+              "global decides e.g. whether an inferred long prefix or a repeated Set argument in a subcommand is rejected): "
+              "Gen/SettingsTables.v is regenerated on every run; for every setter name of a case file the model-side reader "
+              "does to the model command exactly what the source's Command::<name>(true) does -- same AppSettings variant, "
+              "same AppFlags records (settings only, or settings and g_settings) -- for every command, and the harness "
+              "calls the method of that name (C10_settings_reader_matches_source); the source's setters the model does not "
+              "represent are exactly a listed set (C10_settings_unmodelled: a new setter breaks it); propagate_subcommand IS "
+              "the table's function (C10_settings_propagate_table); per setting one propagation step is `is_set below = "
+              "is_set below || in the parent's global record`, and the global record is handed on (C10_propagate_is_set); "
+              "a setter routed through global_setting holds at EVERY level of any chain below the command it was called "
+              "on, one routed through setting changes nothing below (C10_global_setter_reaches_every_level, "
+              "C10_local_setter_stays), and in the real build order -- build_self, then build_subcommand to any depth, for every unbuilt "
+              "tree without short-flag subcommands -- every global setting except PropagateVersion (which the generated help "
+              "subcommand clears) is set at every level (C10_global_setting_set_at_every_built_level, "
+              "C10_global_setter_set_at_every_built_level); the settings block of _build_self (multicall excluded) and the finishing of the "
+              "generated help subcommand are the table's functions (C10_build_self_settings_table, "
+              "C10_help_subcommand_table).  The model is tied to "
               "clap_builder by running extracted model and real crate on the same generated cases on every check; an "
               "independent python oracle (fault annotations, exit contract, existence of suggested names) runs on the "
               "implementation's output alone.")
